@@ -134,8 +134,8 @@ impl Template {
     }
 }
 
-fn gen_part(rng: &mut Rng) -> Part1 {
-    let name = rng.pick(&["n1", "n2", "n3"]).to_string();
+fn gen_part(rng: &mut Rng, names: u64) -> Part1 {
+    let name = format!("n{}", 1 + rng.below(names));
     let help = format!("help {} {}", name, rng.below(2));
     let consts = match rng.below(7) {
         0 => vec![],
@@ -148,9 +148,9 @@ fn gen_part(rng: &mut Rng) -> Part1 {
         _ => vec![("b".to_string(), "1".to_string())],
     };
     // one metric type per name: mixed kinds under one name are C14's subject, not C06's
-    let kind: u8 = match name.as_str() {
-        "n1" => if rng.chance(1, 2) { 3 } else { 0 },
-        "n2" => 1,
+    let kind: u8 = match name[1..].parse::<u64>().unwrap_or(0) % 3 {
+        1 => if rng.chance(1, 2) { 3 } else { 0 },
+        2 => 1,
         _ => 2,
     };
     let vars = if kind == 3 { vec![rng.pick(&["v", "w"]).to_string()] } else { vec![] };
@@ -247,7 +247,10 @@ fn gathered_keys(mfs: &[MetricFamily], templates: &[Template]) -> BTreeSet<Key> 
 
 pub fn run_case(cx: &mut Ctx) {
     let mut rng = Rng::derive(cx.seed, cx.case.wrapping_mul(2).wrapping_add(0xC06));
-    let ntemplates = 6 + rng.usize_below(8);
+    // one history in thirty is a bulk one: hundreds of collectors over hundreds of names (map growth, many ids)
+    let bulk = cx.case % 30 == 5;
+    let names: u64 = if bulk { 300 } else { 3 };
+    let ntemplates = if bulk { 150 + rng.usize_below(250) } else { 6 + rng.usize_below(8) };
     let mut templates: Vec<Template> = Vec::new();
     templates.push(Template::new(vec![])); // a collector without descriptors
     for _ in 0..ntemplates {
@@ -256,13 +259,16 @@ pub fn run_case(cx: &mut Ctx) {
             2 | 3 => 2,
             _ => 3,
         };
-        templates.push(Template::new((0..nparts).map(|_| gen_part(&mut rng)).collect()));
+        templates.push(Template::new((0..nparts).map(|_| gen_part(&mut rng, names)).collect()));
     }
     let a = Registry::new();
     let b = Registry::new();
     let mut model = ModelReg::default();
     let mut log: Vec<Json> = Vec::new();
-    let nops = 20 + rng.usize_below(if cx.thorough { 180 } else { 60 });
+    let nops = if bulk { 500 + rng.usize_below(500) } else { 20 + rng.usize_below(if cx.thorough { 180 } else { 60 }) };
+    if bulk {
+        cx.part.count("bulk_histories", 1);
+    }
     let detail = |log: &Vec<Json>, templates: &Vec<Template>| jobj! {"templates" => templates.iter().map(|t| t.describe()).collect::<Vec<_>>(), "history" => Json::Arr(log.clone())};
     for _ in 0..nops {
         let ti = rng.usize_below(templates.len());
